@@ -50,10 +50,10 @@ Print Assumptions c10_no_leak_reachable.
 
 (* ... and the {info} frames a p2p/group topic makes from a {note} of an attached session reach only attached
    sessions of CURRENT NON-DELETED subscribers whose mode has R (in-topic receipts need R, not P: topic.go:1291). *)
-Theorem c10_no_leak_note : forall s sid0 r w0 seq sid user top src w,
-  reach s -> In (Frame sid user top src w) (snd (step s (Note sid0 r w0 seq))) ->
+Theorem c10_no_leak_note : forall s sid0 u0 r w0 seq sid user top src w,
+  reach s -> In (Frame sid user top src w) (snd (step s (Note sid0 u0 r w0 seq))) ->
   is_info w = true /\
-  exists x, get_top (fst (step s (Note sid0 r w0 seq))) top = Some x /\ In (sid, user) (t_sess x) /\
+  exists x, get_top (fst (step s (Note sid0 u0 r w0 seq))) top = Some x /\ In (sid, user) (t_sess x) /\
             cached x user = true /\ is_reader (p_mode (get_pud x user)) = true.
 Proof. exact no_leak_note_reach. Qed.
 Print Assumptions c10_no_leak_note.
